@@ -5,8 +5,36 @@ warnings.filterwarnings('ignore')
 logging.disable(logging.WARNING)
 
 
+SHORTCUT = {'misfired': 0}
+
+
+def _linear_colifilt():
+    """The reference `colifilt` returns zeros early `if not np.any(np.nonzero(X[:])[0])` - meant as "X is all zero", but
+    `np.nonzero(X)[0]` are ROW INDICES, so the shortcut also fires for a non-zero X whose non-zero samples all lie in its
+    first row (e.g. a lowpass impulse at row 0, or integer test data with a zero second row of a 2-row band), and the
+    reference then returns 0 instead of its own linear filter output.  On exactly those calls we evaluate the reference's
+    own arithmetic by linearity, colifilt(X) = colifilt(X + D) - colifilt(D) with D = 1 in the last row (neither call takes
+    the shortcut), and count the occurrence.  Everything else is the unmodified reference."""
+    import dtcwt.numpy.transform2d as T
+    import dtcwt.numpy.lowlevel as Rf
+    if getattr(T.colifilt, '_verif_linear', False):
+        return
+    orig = Rf.colifilt
+
+    def colifilt(X, ha, hb):
+        X = np.asarray(X, dtype=np.float64)
+        if X.ndim == 2 and X.shape[0] >= 2 and np.any(X) and not np.any(np.nonzero(X)[0]):
+            SHORTCUT['misfired'] += 1
+            D = np.zeros_like(X); D[-1, :] = 1.0
+            return orig(X + D, ha, hb) - orig(D, ha, hb)
+        return orig(X, ha, hb)
+    colifilt._verif_linear = True
+    T.colifilt = colifilt
+
+
 def _xfm(biort, qshift):
     import dtcwt
+    _linear_colifilt()
     return dtcwt.Transform2d(biort=biort, qshift=qshift)
 
 
